@@ -212,6 +212,33 @@ fn job_rewrite(j: &J) -> J {
     }
 }
 
+/// Subplan sharing over ALL heads of a program at once (cross-rule sharing), as optimize_ir does.
+fn job_share_all(j: &J) -> J {
+    let irs: Result<Vec<_>, String> = j["irs"].as_array().map(|a| a.iter().map(ir_from_json).collect()).unwrap_or(Ok(vec![]));
+    let irs = match irs {
+        Ok(i) => i,
+        Err(e) => return json!({"ok": false, "error": e}),
+    };
+    let derived: HashSet<String> = j["derived"]
+        .as_array()
+        .map(|a| a.iter().filter_map(|x| x.as_str().map(String::from)).collect())
+        .unwrap_or_default();
+    let out = std::panic::catch_unwind(std::panic::AssertUnwindSafe(|| {
+        SubplanSharer::new().share_subplans(irs.clone(), &derived)
+    }));
+    match out {
+        Ok((new_irs, views)) => {
+            let mut vm = serde_json::Map::new();
+            let sorted: BTreeMap<_, _> = views.iter().collect();
+            for (k, v) in sorted {
+                vm.insert(k.clone(), ir_to_json(v));
+            }
+            json!({"ok": true, "irs": new_irs.iter().map(ir_to_json).collect::<Vec<_>>(), "views": vm})
+        }
+        Err(_) => json!({"ok": false, "error": "panic in share_subplans", "panic": true}),
+    }
+}
+
 fn job_exec_ir(j: &J) -> J {
     let ir = match ir_from_json(&j["ir"]) {
         Ok(i) => i,
@@ -254,6 +281,7 @@ fn main() {
                         "build" => job_build(&j),
                         "rewrite" => job_rewrite(&j),
                         "exec_ir" => job_exec_ir(&j),
+                        "share_all" => job_share_all(&j),
                         "contains_join" => match ir_from_json(&j["ir"]) {
                             Ok(i) => json!({"ok": true, "contains_join": CodeGenerator::verif_contains_join(&i)}),
                             Err(e) => json!({"ok": false, "error": e}),
